@@ -281,7 +281,7 @@ func (bal *BalanceGslb) getHashKey(req *bfe_basic.Request) []byte {
 
 	case cluster_conf.ClientIdPreferred:
 		hashKey = getHashKeyByHeader(req, *bal.hashConf.HashHeader)
-		if hashKey == nil {
+		if len(hashKey) == 0 {
 			hashKey = clientIP
 		}
 
